@@ -23,7 +23,12 @@ std::string handle(const std::string& op, const Args& a) {
     if (op == "trace") {
         auto A = make(nats(a, "a"), mode, 0);
         int offset = (int)integer(a, "offset"), axis1 = (int)integer(a, "axis1"), axis2 = (int)integer(a, "axis2");
-        try { return show(view::trace(A, offset, axis1, axis2)); } catch (const std::out_of_range&) { return "crash:out_of_range"; }
+        std::string form = has(a, "form") ? get(a, "form") : "full";     // d0: trace(a), d1: trace(a, offset): default axes
+        try {
+            if (form == "d0") return show(view::trace(A));
+            if (form == "d1") return show(view::trace(A, offset));
+            return show(view::trace(A, offset, axis1, axis2));
+        } catch (const std::out_of_range&) { return "crash:out_of_range"; }
     }
     if (op == "kron_helpers") {
         auto ls = nats(a, "a"), rs = nats(a, "b");
